@@ -88,7 +88,11 @@ func checkC04(c *Ctx) {
 				c.c05Sibling(fo)
 			}
 		}
-	}, func(o *coreObl) (string, bool) { return "R04.6", o.Rule == "R05.5" || o.Rule == "R05.6" })
+	}, func(o *coreObl) (string, bool) {
+		return "R04.6", o.Rule == "R05.5" || o.Rule == "R05.6" || o.Rule == "R05.3" && (o.Status == "discharged" || o.What == "cached-error-not-from-builder")
+	})
+	// R04.5: "when the caller's context is cancelled after Get returned" — the detached context's Done/Err/Deadline are its own
+	c.borrow("C06", func() { c.c06Detached() }, func(o *coreObl) (string, bool) { return "R04.5", o.Rule == "R06.4" })
 }
 
 func (c *Ctx) c04Sibling(fo *FO) {
